@@ -7,6 +7,7 @@
 #include <fcntl.h>
 #include <sys/mman.h>
 #include <time.h>
+#include <locale.h>
 
 namespace vf {
 
@@ -148,6 +149,9 @@ int main(int argc, char** argv) {
         else { fprintf(stderr, "unknown argument %s\n", a.c_str()); usage(); return 2; }
     }
     if (ctx.tier == "thorough") ctx.set_bitmap_bits((size_t)1 << 27);
+    // every other worker runs under a UTF-8 locale, as after an application's setlocale(LC_ALL, ""): anything in the library that asks
+    // the C library about characters (isalnum, iswalnum, tolower, towlower, strtol ...) answers differently there for non-ASCII input
+    if ((ctx.worker & 1) && setlocale(LC_ALL, "C.utf8")) ctx.count("worker_under_utf8_locale");
     const Monitor* mon = nullptr;
     for (auto& m : monitors()) if (ctx.monitor == m.name) mon = &m;
     if (!mon) { usage(); return 2; }
